@@ -207,7 +207,7 @@ func runC17(c *Ctx) {
 	// next one lets one request's reply carry another's payload under the right request ID.
 	{
 		nw := 0
-		for _, call := range AllCalls(onReq) {
+		for _, call := range AllCallsDeep(onReq) {
 			cc := call.Common()
 			if cc.IsInvoke() || cc.StaticCallee() != nil || len(cc.Args) != 2 {
 				continue
@@ -229,7 +229,7 @@ func runC17(c *Ctx) {
 			if fresh {
 				fresh = al.Heap || true
 			}
-			c.Require("C17.R14 writer-per-request", FuncKey(onReq)+": writer handed to the handler", p.InstrPos(call), "the response writer given to the handler is allocated for this request (not taken from a pool or a field shared between requests)", fresh, fmt.Sprintf("writer = %s (%T)", ff0(onReq).Term(v).String(), root))
+			c.Require("C17.R14 writer-per-request", FuncKey(onReq)+": writer handed to the handler", p.InstrPos(call), "the response writer given to the handler is allocated for this request (not taken from a pool or a field shared between requests)", fresh, fmt.Sprintf("writer = %s (%T)", ff0(call.Parent()).Term(v).String(), root))
 		}
 		c.MinInstances("C17.R14 writer-per-request", nw, 1)
 	}
